@@ -196,7 +196,7 @@ class SameMasterHistories:
     """two wallet objects holding the SAME master key (A built from mnemonic+passphrase, B imported from A's master
     xprv) used alternately in one process; default renderings (json() without data) must describe the wallet they are
     called on. canon = the history."""
-    OPS = [["A", "json"], ["B", "json"], ["A", "gen"], ["B", "gen"], ["B", "export"]]
+    OPS = [["A", "json"], ["B", "json"], ["A", "gen"], ["B", "gen"], ["B", "export"], ["C", "gen"], ["D", "gen"], ["E", "json"]]
 
     def ops(self, hist):
         return self.OPS
@@ -206,7 +206,11 @@ class SameMasterHistories:
         src = SOURCES[1]
         a, m, mn, pw = build(src, False)
         b = PaperWallet.from_extended_key(hd.xprv(m))
-        ws = {"A": (a, mn, pw), "B": (b, None, None)}
+        # C, D, E: duplicates of A (copy.copy / copy.deepcopy / pickle round trip) - same wallet, same master block
+        from .. import hdscen
+        cl = dict(hdscen.clones(a))
+        ws = {"A": (a, mn, pw), "B": (b, None, None), "C": (cl.get("copy.deepcopy", a), mn, pw), "D": (cl.get("pickle", a), mn, pw),
+              "E": (cl.get("copy.copy", a), mn, pw)}
         viols, label = [], "init"
         for n, (wid, req) in enumerate(hist):
             w, wmn, wpw = ws[wid]
